@@ -346,7 +346,8 @@ fn c15_rxo_cross_b__rest() {
 }
 
 /// One (writer list length, reader list length) case with CONCRETE lengths and symbolic ids.
-fn representation_case(wn: usize, rn: usize) {
+/// Returns (reported mask, table mask, writer ids a b, reader ids c d).
+fn representation_case(wn: usize, rn: usize) -> (u32, u32, u16, u16, u16, u16) {
     let mut w = DataWriterQos::const_default();
     let mut r = DataReaderQos::const_default();
     let (a, b, c, d): (u16, u16, u16, u16) = (kani::any(), kani::any(), kani::any(), kani::any());
@@ -362,47 +363,51 @@ fn representation_case(wn: usize, rn: usize) {
     };
     let p = PublisherQos::const_default();
     let s = SubscriberQos::const_default();
-
     let (m1, expect, _t1, _t2) = check_pair(&w, &p, &r, &s);
-
-    if wn == 0 && rn == 0 {
-        kani::cover!(expect == 0 && m1 == 0, "both lists empty: XCDR matches XCDR");
-    }
-    if wn == 1 && rn == 0 {
-        kani::cover!(m1 == bit(DATA_REPRESENTATION_QOS_POLICY_ID), "non-XCDR offer against an empty reader list");
-        kani::cover!(m1 == 0 && a == XCDR_DATA_REPRESENTATION, "explicit XCDR offer against an empty reader list");
-    }
-    if wn == 0 && rn == 1 {
-        kani::cover!(m1 == bit(DATA_REPRESENTATION_QOS_POLICY_ID), "implicit XCDR offer against a reader without XCDR");
-    }
-    if wn == 1 && rn == 2 {
-        kani::cover!(m1 == bit(DATA_REPRESENTATION_QOS_POLICY_ID), "only representation incompatible, reader list of two");
-        kani::cover!(expect == 0 && d == a && c != a, "offer matched by the reader's second entry");
-    }
-    if wn == 2 && rn == 1 {
-        kani::cover!(expect == 0 && b != c, "writer's first entry is the offer (second entry not accepted by the reader)");
-        kani::cover!(m1 == bit(DATA_REPRESENTATION_QOS_POLICY_ID) && b == c, "writer's second entry is not offered");
-    }
     core::mem::forget((w, r, p, s));
+    (m1, expect, a, b, c, d)
 }
 
 // @check props=C15 tier=quick
-// @desc group 4 (data representation): for every pair of representation lists (writer offers its first entry or XCDR if empty; reader accepts any entry, empty = [XCDR]) both real functions report exactly the incompatible policies of the table and agree with each other
-// @bounds representation lists of every length pair (0..=2) x (0..=2) (nine cases with concrete lengths in one harness) with any u16 ids on both sides; all other policies default. unwind 10
+// @desc group 4 (data representation): for pairs of representation lists (writer offers its first entry or XCDR if empty; reader accepts any entry, empty = [XCDR]) both real functions report exactly the incompatible policies of the table and agree with each other
+// @bounds representation list length pairs (writer, reader) = (0,0), (1,0), (0,1), (1,2), (2,1) - concrete lengths per case, any u16 ids; the remaining pairs (1,1), (0,2), (2,0), (2,2) are in the thorough tier; all other policies default. unwind 10
 // @enc dcps::dcps_domain_participant::discovery_methods::get_discovered_reader_incompatible_qos_policy_list
 // @enc dcps::dcps_domain_participant::discovery_methods::get_discovered_writer_incompatible_qos_policy_list
 #[kani::proof]
 #[kani::unwind(10)]
 fn c15_rxo_group4_representation__rest() {
-    let mut wn = 0;
-    while wn <= 2 {
-        let mut rn = 0;
-        while rn <= 2 {
-            representation_case(wn, rn);
-            rn += 1;
-        }
-        wn += 1;
-    }
+    let (m, e, _, _, _, _) = representation_case(0, 0);
+    kani::cover!(e == 0 && m == 0, "both lists empty: XCDR matches XCDR");
+    let (m, _e, a, _, _, _) = representation_case(1, 0);
+    kani::cover!(m == bit(DATA_REPRESENTATION_QOS_POLICY_ID), "non-XCDR offer against an empty reader list");
+    kani::cover!(m == 0 && a == XCDR_DATA_REPRESENTATION, "explicit XCDR offer against an empty reader list");
+    let (m, _e, _, _, _, _) = representation_case(0, 1);
+    kani::cover!(m == bit(DATA_REPRESENTATION_QOS_POLICY_ID), "implicit XCDR offer against a reader without XCDR");
+    let (m, e, a, _, c, d) = representation_case(1, 2);
+    kani::cover!(m == bit(DATA_REPRESENTATION_QOS_POLICY_ID), "only representation incompatible, reader list of two");
+    kani::cover!(e == 0 && d == a && c != a, "offer matched by the reader's second entry");
+    let (m, e, _a, b, c, _) = representation_case(2, 1);
+    kani::cover!(e == 0 && b != c, "writer's first entry is the offer (second entry not accepted by the reader)");
+    kani::cover!(m == bit(DATA_REPRESENTATION_QOS_POLICY_ID) && b == c, "writer's second entry is not offered");
+}
+
+// @check props=C15 tier=thorough timeout=1800
+// @desc group 4 (data representation), remaining list length pairs
+// @bounds representation list length pairs (writer, reader) = (1,1), (0,2), (2,0), (2,2), any u16 ids; all other policies default. unwind 10
+// @enc dcps::dcps_domain_participant::discovery_methods::get_discovered_reader_incompatible_qos_policy_list
+// @enc dcps::dcps_domain_participant::discovery_methods::get_discovered_writer_incompatible_qos_policy_list
+#[kani::proof]
+#[kani::unwind(10)]
+fn c15_rxo_group4_representation_b__rest() {
+    let (m, e, a, _, c, _) = representation_case(1, 1);
+    kani::cover!(e == 0 && m == 0 && a == c && a != XCDR_DATA_REPRESENTATION, "equal non-XCDR single entries match");
+    let (m, _e, _, _, c, d) = representation_case(0, 2);
+    kani::cover!(m == 0 && c != XCDR_DATA_REPRESENTATION && d == XCDR_DATA_REPRESENTATION, "implicit XCDR offer matched by the reader's second entry");
+    let (m, _e, _a, b, _, _) = representation_case(2, 0);
+    kani::cover!(m == bit(DATA_REPRESENTATION_QOS_POLICY_ID) && b == XCDR_DATA_REPRESENTATION, "XCDR as the writer's second entry is not offered to an empty reader list");
+    let (m, e, a, b, c, d) = representation_case(2, 2);
+    kani::cover!(e == 0 && m == 0 && a == d && a != c, "first of two matched by second of two");
+    kani::cover!(m == bit(DATA_REPRESENTATION_QOS_POLICY_ID) && (b == c || b == d), "only the writer's second entry would match");
 }
 
 // @check props=C15 tier=quick known=KF-C15-1
